@@ -97,6 +97,8 @@ def main(tier):
     rep.attempt(bounds.check, rep, {'ec_mad', 'ec_mul'}, 'MAD', 37)
     import guardloop
     rep.attempt(guardloop.check, rep, 'MAD', r'^erasure_code/.*(mad|mul)', 8)
+    import deadvdef
+    rep.attempt(deadvdef.check, rep, 'MAD', r'^erasure_code/.*(mad|mul)', 1000)
     import gfrows
     rep.attempt(gfrows.check, rep, 35)
     import baseloops
